@@ -65,6 +65,7 @@ OUTDIR_KINDS = ["given", "none", "missing_dir"]
 IMAGE_SOURCES = ["dataset_default", "dataset_custom", "md_one", "md_two", "md_first_in_chain"]
 CHUNK_POOL = [["stdout", "building\n"], ["stderr", "warning: something\n"], ["stdout", ""], ["stdout", "line1\nline2\nline3\n"],
               ["stderr", "café ✓\n"], ["stdout", "x" * 300 + "\n"]]
+BIG = ["stdout", "BIG:450000"]  # a chatty job: 450 kB in one chunk
 
 
 def prepare(prop, tier, seed):
@@ -96,6 +97,10 @@ def plan_shapes():
         shapes.append({"chunks": chunks, "result_at": None, "fail_at": k, "extra": []})
         shapes.append({"chunks": chunks, "result_at": 0, "fail_at": k, "extra": []})
     shapes.append({"chunks": chunks, "result_at": 1, "fail_at": 3, "extra": [["job.log", "text", "some log\n"]]})
+    big = [BIG, BIG, CHUNK_POOL[0], BIG, BIG]
+    shapes.append({"chunks": big, "result_at": 1, "fail_at": None, "extra": []})
+    shapes.append({"chunks": big, "result_at": 1, "fail_at": 5, "extra": []})
+    shapes.append({"chunks": big, "result_at": None, "fail_at": 4, "extra": []})
     return shapes
 
 
@@ -113,7 +118,14 @@ def _sweep_space():
             for ok in OUTDIR_KINDS:
                 items.append((b, start, "one", "dataset_default", ok, 0))
                 items.append((b, start, "one", "dataset_default", ok, 5))
+            for seq in REUSE_SEQS:
+                items.append((b, start, "several", "reuse:" + "/".join(seq), "given", 0))
     return items
+
+
+# one dataset object executing several queries in turn (image source of each query)
+REUSE_SEQS = [["md_one", "dataset_custom"], ["dataset_custom", "md_one", "dataset_custom"], ["md_two", "md_one", "dataset_default"],
+              ["dataset_default", "dataset_default"]]
 
 
 N_SEEDED = {"quick": 2500, "thorough": 80000}
@@ -123,15 +135,23 @@ def plan(prop, tier, seed):
     return len(_sweep_space()) + N_SEEDED[tier]
 
 
-def _op(backend, files, image, outdir, plan_, io_fault=None, md_extra=0, chained=None):
+def _op(backend, files, image, outdir, plan_, io_fault=None, md_extra=0, chained=None, reuse=None):
+    """reuse = index (in execution order) of an earlier execution whose *dataset object* runs this query too."""
     return {"op": "execute", "backend": backend, "files": files, "image": image, "outdir": outdir, "plan": plan_,
-            "io_fault": io_fault, "md_extra": md_extra, "chained": chained}
+            "io_fault": io_fault, "md_extra": md_extra, "chained": chained, "reuse": reuse}
 
 
 def make_case(prop, tier, seed, i):
     sweep = _sweep_space()
     if i < len(sweep):
         b, start, fc, im, ok, si = sweep[i]
+        if im.startswith("reuse:"):
+            seq = im[6:].split("/")
+            first_im = seq[0] if seq[0].startswith("md_") else seq[0]
+            groups = [[_op(b, fc, seq[0], ok, plan_shapes()[si])]]
+            for s_im in seq[1:]:
+                groups.append([_op(b, fc, s_im, ok, plan_shapes()[si], reuse=0)])
+            return {"engine": NAME, "prop": prop, "seed": seed, "run": i, "kind": "sweep", "start_state": start, "groups": groups}
         return {"engine": NAME, "prop": prop, "seed": seed, "run": i, "kind": "sweep", "start_state": start,
                 "groups": [[_op(b, fc, im, ok, plan_shapes()[si])]]}
     rng = run_rng(NAME, seed, i)
@@ -140,6 +160,7 @@ def make_case(prop, tier, seed, i):
     p_io = rng.choice([0.0, 0.0, 0.15])
     p_chain = rng.choice([0.0, 0.0, 0.3, 0.6])
     p_bin = rng.choice([0.0, 0.0, 0.1])
+    p_big = rng.choice([0.0, 0.0, 0.0, 0.3])
     n = weighted(rng, [(1, 4), (2, 3), (3, 2), (4, 1)])
     ops = []
     for _ in range(n):
@@ -152,6 +173,10 @@ def make_case(prop, tier, seed, i):
         chunks = [rng.choice(CHUNK_POOL) for _ in range(nch)]
         if rng.random() < p_bin and chunks:
             chunks[rng.randrange(len(chunks))] = ["stdout", "\\xff\\xfe<non-utf8>"]
+        if rng.random() < p_big:
+            for _ in range(rng.choice([1, 3, 4])):
+                chunks.insert(rng.randrange(len(chunks) + 1), BIG)
+            nch = len(chunks)
         pl = {"chunks": chunks, "result_at": rng.randrange(0, nch + 1), "fail_at": None, "extra": []}
         r = rng.random()
         if r < p_fail:
@@ -173,12 +198,20 @@ def make_case(prop, tier, seed, i):
             if rng.random() < 0.4:
                 chained["faults"].append({"pick": rng.random(), "mode": rng.choice(["fail-before", "fail-after-partial"]),
                                           "rc": rng.choice([1, 2, 139])})
-        ops.append(_op(b, fc, im, ok, pl, io_fault, md_extra=rng.choice([0, 0, 1, 2]), chained=chained))
+        reuse = None
+        if ops and rng.random() < 0.3:
+            reuse = rng.randrange(len(ops))
+            while ops[reuse]["reuse"] is not None:
+                reuse = ops[reuse]["reuse"]
+            b, fc, ok = ops[reuse]["backend"], ops[reuse]["files"], ops[reuse]["outdir"]
+        ops.append(_op(b, fc, im, ok, pl, io_fault, md_extra=rng.choice([0, 0, 1, 2]), chained=chained, reuse=reuse))
     # group: mostly one at a time; sometimes several executions started as tasks of one loop
     groups = []
     j = 0
     while j < len(ops):
         k = 1 if rng.random() < 0.75 else rng.choice([2, 3])
+        if any(o["reuse"] is not None for o in ops[j:j + k]):
+            k = 1  # a reused dataset object runs its queries one after the other
         groups.append(ops[j:j + k])
         j += k
     return {"engine": NAME, "prop": prop, "seed": seed, "run": i, "kind": "seeded", "start_state": start, "groups": groups}
@@ -271,6 +304,8 @@ def _chain_has(exc, cls):
 
 
 def _chunk_bytes(text):
+    if text.startswith("BIG:"):
+        return (b"y" * 99 + b"\n") * (int(text[4:]) // 100)
     if text.startswith("\\xff\\xfe"):
         return b"\xff\xfe" + text[8:].encode()
     return text.encode("utf-8")
@@ -441,7 +476,13 @@ def _child(case):
 
     docker.install(handler)
 
+    datasets = {}
+
     def build_stream(op, tag):
+        if op.get("reuse") is not None and op["reuse"] in datasets:
+            ds, files, outdir, ds_image = datasets[op["reuse"]]
+            bump("reach:dataset_object_reused")
+            return finish_stream(op, tag, ds, files, outdir, ds_image)
         files_arg, files = _materialise_files(base, tag, op["files"])
         outdir = None
         if op["outdir"] == "given":
@@ -463,7 +504,11 @@ def _child(case):
         if outdir is not None:
             kw["output_directory"] = Path(outdir)
         ds = cls(files_arg, **kw)
-        expected_image = f"{ds_image_name}:{ds_tag}"
+        datasets[tag] = (ds, files, outdir, f"{ds_image_name}:{ds_tag}")
+        return finish_stream(op, tag, ds, files, outdir, f"{ds_image_name}:{ds_tag}")
+
+    def finish_stream(op, tag, ds, files, outdir, ds_image):
+        expected_image = ds_image
         all_images = [expected_image]
         s = ds
         mds = []
